@@ -250,6 +250,13 @@ def check_decoder_prints(rep, prog):
             interpreted_funcs.add(e.func)
             if e.kind in ("print", "exit", "extcall", "methcall"):
                 executed_nodes.add(id(e.node))
+    # what a file being decoded can execute: everything the (opaque) per-file decode entry points may call, by the
+    # over-approximate name-based call graph, plus every dynamically imported plug-in entry point
+    graph = effects.call_graph(prog)
+    roots = set(DECODERS) | {q for q in graph if q.split(".")[-1] in ("parseUDToJson", "parseSRCToJson")}
+    decode_side = effects.reachable(graph, roots)
+    rep.count("functions a per-file decode may reach (call graph)", len(decode_side))
+    rep.floor("decode-side functions", len(decode_side), 60)
     n = 0
     for cs in effects.call_sites(prog):
         name = cs.name or ""
@@ -260,7 +267,10 @@ def check_decoder_prints(rep, prog):
         if not (is_print or is_write or is_exit):
             continue
         q = cs.qual
-        if q in CLI_PRINTERS or q.startswith(PT + "CustomFormatter") or cs.module.name.startswith("peltool-wrapper"):
+        top = effects.enclosing_top_function(cs.node)
+        tq = effects._qual_of(cs.module, top) if top is not None else cs.module.name + ".<module>"
+        if tq not in decode_side:
+            # CLI-side code: its output is constrained by the event rules above where it runs inside a per-file loop
             continue
         if q in (PT + "processId", PT + "parsePEL") and is_exit:
             continue      # argument validation / the documented -f exit path (exit_on_error), see C05
